@@ -120,7 +120,8 @@ def gen(rng, tier, i):
     ls = sc.add_socks_listener("l-socks")
     if rng.random() < 0.5:
         sc.cfg["listeners"][0]["bind"] = "[::]:%d" % lh["port"]
-    listeners = {"l-http": lh, "l-socks": ls}
+    ltp = sc.add_tproxy_listener("l-tp")
+    listeners = {"l-http": lh, "l-socks": ls, "l-tp": ltp}
     # connectors: observable fake HTTP upstreams
     nconn = rng.randint(2, 4)
     conns = []
@@ -132,7 +133,7 @@ def gen(rng, tier, i):
     targets = ["u%d" % k for k in range(nconn)] + ["lb-tcp", "deny"]
     # request pool
     nreq = rng.randint(1, 6)
-    pool = {"listeners": ["l-http", "l-socks", "other"], "src_ips": [], "tgt_hosts": [], "ports": [],
+    pool = {"listeners": ["l-http", "l-socks", "l-tp", "other"], "src_ips": [], "tgt_hosts": [], "ports": [],
             "nets": ["10.1.0.0/16", "10.1.0.0/30", "10.0.0.0/8", "0.0.0.0/0", "fd01::/16", "fd01::/126", "::/0", "10.9.0.0/24", "192.168.0.0/16", "fd09::/64", "10.1.0.2/32"]}
     reqs = []
     for k in range(nreq):
@@ -148,6 +149,11 @@ def gen(rng, tier, i):
         else:
             host = "fd09::%x" % rng.randint(1, 200)
         udp = rng.random() < 0.2
+        if tk != "domain" and rng.random() < 0.2:
+            # a diverted (TPROXY) connection: no handshake, the target is the address the client dialled
+            lname, udp = "l-tp", False
+            if (":" in host) != (":" in src):
+                src = sc.client_ip(":" in host)
         if udp and lname == "l-socks" and any(q["udp"] and q["listener"] == "l-socks" for q in reqs):
             udp = False  # SOCKS UDP associations all carry the target 0.0.0.0:0: keep at most one so it stays attributable
         feature = "UdpForward" if udp else "TcpForward"
@@ -295,7 +301,7 @@ def oracle(plan, out):
                 v("allowed-but-not-served", "%s should be served by %s (first matching rule) but no upstream was contacted; client told established=%s" % (desc, exp[2], told_ok))
             elif mine != [want_actor]:
                 v("wrong-upstream", "%s should be served by %s but contacted %s" % (desc, exp[2], mine))
-            if not told_ok and mine == [want_actor]:
+            if not told_ok and mine == [want_actor] and r["listener"] != "l-tp":
                 v("allowed-but-refused", "%s was routed correctly but the client was not told 'established'" % desc)
             recs = [h for h in hrecs if h.get("source", "").startswith(r["src"] if ":" not in r["src"] else "[" + r["src"]) and h.get("listener") == r["listener"]]
             for h in recs:
